@@ -267,7 +267,11 @@ INERT_CANDIDATES = ["xyzzy", "plugh", "qux", "zork", "blorb", "wibble", "grue", 
                     "ipsum", "gizmo", "quark", "zebra", "pizza", "kiwi", "yoga", "jazz", "lunch", "call",
                     "buy", "milk", "review", "budget", "gym", "pickup", "kids", "flight", "zahnarzt", "kino",
                     # inert words that are not made of letters only ('#' without being a hashtag, digits inside, punctuation)
-                    "C#", "F#", "#", "R2D2x", "w/o", "AT&T", "e=mc", "50%x", "@home", "foo_bar"]
+                    "C#", "F#", "#", "R2D2x", "w/o", "AT&T", "e=mc", "50%x", "@home", "foo_bar",
+                    # words whose head or tail is a piece of a pattern (st, a, very, not, right, pm ...): inert alone, and a pattern
+                    # must not reach into them from the expression next to them
+                    "street", "staff", "thanks", "terrace", "pizza", "oma", "every", "knot", "copyright", "pmx", "quarter", "amx",
+                    "nachbar", "vorname", "abend2", "spam", "diagram"]
 
 
 # ---- token soups: random sequences of lexemes of every category (renders Derive.tla's alphabet) ------
